@@ -1,4 +1,4 @@
-//go:build verif_harness
+//go:build verif_harness && cgo
 
 package crypto
 
@@ -82,6 +82,17 @@ func zzC19_bls(op int) {
 		f = func() {
 			ok, err := VerifyBLSSignatureManyMessages(pks, aggb, msgs, hs)
 			verifAssert(bAnd(ok == want, err == nil), "concurrent VerifyBLSSignatureManyMessages returns the sequential verdict")
+		}
+	case 7:
+		// entries that take the "pre-marked invalid" branch: a short signature, an identity public key
+		pks = []PublicKey{pk1, pk2, IdentityBLSPublicKey()}
+		sigs = []Signature{sig1[:40], sig2, sig2}
+		want, _ := BatchVerifyBLSSignaturesOneMessage([]PublicKey{pk1r, pk2r, IdentityBLSPublicKey()}, []Signature{sig1[:40], sig2, sig2}, msg, ht)
+		f = func() {
+			res, err := BatchVerifyBLSSignaturesOneMessage(pks, sigs, msg, h)
+			verifAssert(err == nil, "batch verification succeeds")
+			verifAssert(bAnd(len(res) == 3, bAnd(res[0] == want[0], bAnd(res[1] == want[1], res[2] == want[2]))), "concurrent batch verification with invalid entries returns the sequential verdicts")
+			verifAssert(bAnd(len(sigs[0]) == 40, len(sigs[2]) == 48), "signature list entries keep their lengths")
 		}
 	default:
 		want, _ := BatchVerifyBLSSignaturesOneMessage([]PublicKey{pk1r, pk2r}, sigs, msg, ht)
